@@ -953,7 +953,8 @@ class Constraints:
                 pass
             else:
                 raise ValueError
-        return v
+        # keep the (already converted) value: the constant may be of a tolerated other numeric type
+        return value
 
     @classmethod
     def lax_const(cls, value, v):
